@@ -204,4 +204,38 @@ theorem legacy_all_commits (tx tx' : Tx) (hwf : tx.wf) (hwf' : tx'.wf) (idx ht :
       Option.map_some, sigIn, ↓reduceIte, Option.some.injEq] at m
     exact m
 
+/-- **SINGLE (legacy) commits to the output at the signed index** — and to nothing else of the output list: two contexts
+    with the same preimage and a matching output have the same output there; conversely the preimage does not depend on
+    the other outputs at all (`legacy_single_other_outputs_free`). -/
+theorem legacy_single_commits (tx tx' : Tx) (hwf : tx.wf) (hwf' : tx'.wf) (idx ht : Nat) (sc sc' : Bytes)
+    (hsc : sc.length < 2 ^ 64) (hsc' : sc'.length < 2 ^ 64)
+    (hidx : idx < tx.inputs.length) (hidx' : idx < tx'.inputs.length) (hs : ht &&& 0x1f = 3)
+    (h : satoshiSpec tx idx ht sc = satoshiSpec tx' idx ht sc') :
+    tx.outputs[idx]? = tx'.outputs[idx]? := by
+  have e := (legacy_commits tx tx' hwf hwf' idx idx ht ht sc sc' hsc hsc' hidx hidx' h).1
+  have eo := congrArg Tx.outputs e
+  unfold sigTx at eo
+  simp only [hs, show (3 : Nat) ≠ 2 by decide, ↓reduceIte] at eo
+  have := (List.append_inj eo (by simp)).2
+  have t := congrArg (fun l : List Output => l[0]?) this
+  simpa [List.getElem?_take, List.getElem?_drop] using t
+
+theorem legacy_single_other_outputs_free (tx : Tx) (outs : List Output) (idx ht : Nat) (sc : Bytes)
+    (hs : ht &&& 0x1f = 3) (hsame : outs[idx]? = tx.outputs[idx]?) :
+    satoshiSpec { tx with outputs := outs } idx ht sc = satoshiSpec tx idx ht sc := by
+  have : (outs.drop idx).take 1 = (tx.outputs.drop idx).take 1 := by
+    apply List.ext_getElem?
+    intro j
+    cases j with
+    | zero => simpa [List.getElem?_take, List.getElem?_drop] using hsame
+    | succ j => simp [List.getElem?_take]
+  unfold satoshiSpec
+  simp only [hs, show (3 : Nat) ≠ 2 by decide, ↓reduceIte, this]
+
+/-- NONE (legacy) does not commit to the outputs -/
+theorem legacy_none_outputs_free (tx : Tx) (outs : List Output) (idx ht : Nat) (sc : Bytes) (hn : ht &&& 0x1f = 2) :
+    satoshiSpec { tx with outputs := outs } idx ht sc = satoshiSpec tx idx ht sc := by
+  unfold satoshiSpec
+  simp only [hn, ↓reduceIte]
+
 end GoBT.Sighash.LegacyCommit
